@@ -59,7 +59,14 @@ func (g *txtGen) term(allowVar, allowSet bool) (string, STerm) {
 			s := pool[r.Intn(len(pool))]
 			return "\"" + s + "\"", aStr(s)
 		case 2:
-			i := []int64{0, 1, 42, 1000000, 9223372036854775807}[r.Intn(5)]
+			i := []int64{0, 1, 42, 1000000, 9223372036854775807, -1, -42, -9223372036854775808}[r.Intn(8)]
+			if i < 0 {
+				// a separator first: "<" directly followed by "-" would lex as the arrow "<-"
+				if !g.printable && r.Chance(30) {
+					return " -" + g.ws() + fmt.Sprint(i)[1:], aInt(i)
+				}
+				return " " + fmt.Sprint(i), aInt(i)
+			}
 			return fmt.Sprint(i), aInt(i)
 		case 3:
 			secs := []int64{0, 1, 1136214245, 1700000000, 253402300799}[r.Intn(5)]
